@@ -44,9 +44,13 @@ class C11(F.Spec):
         ops.append("adv 500")
         pulses = []
         for _ in range(rng.randint(1, 5)):
-            w = rng.choice([1, 5, 19, 20, 21, 50, 79, 80, 95, 99, 140, 141, 160, 200, 500, 1500])
+            w = rng.choice([1, 5, 19, 20, 21, 50, 79, 80, 85, 90, 95, 99, 140, 141, 160, 200, 500, 1500])
             phase = rng.randint(0, 19)
             ops.append("adv %d" % (300 + phase))
+            if rng.random() < 0.4:
+                # a contact spike shortly before the pulse: the sampling timer is already running when the pulse starts
+                sp, gap = rng.choice([1, 2, 3]), rng.choice([3, 8, 13, 17])
+                ops += ["input %d 0" % pin, "adv %d" % sp, "input %d 1" % pin, "adv %d" % gap]
             ops.append("input %d 0" % pin)
             # advance in 10 ms steps so that state changes are time-stamped to 10 ms
             left = w
@@ -105,7 +109,9 @@ class C11(F.Spec):
             w = b - a
             act = [e for e in events if a <= e[0] <= b + 150 and e[1] == 1]
             rel = [e for e in events if b <= e[0] <= b + 300 and e[1] == 0]
-            if w < 100 and act:
+            # (an actuation that falls into a press of 100 ms or more belongs to that press, not to a spike before it)
+            act_short = [e for e in act if not any(a2 <= e[0] <= b2 + 150 for (a2, b2) in pulses if b2 - a2 >= 100)]
+            if w < 100 and act_short:
                 fs.append(F.Finding("glitch-recognised", "a %d ms pulse was recognised as an actuation" % w))
             if w >= 140:
                 if len(act) != 1:
